@@ -4,9 +4,12 @@ import glob, json, os
 ROOT = os.path.dirname(os.path.dirname(os.path.abspath(__file__)))
 props = [json.loads(l)["id"] for l in open(os.path.join(ROOT, "properties.jsonl"))]
 checks, served = [], []
+ready = [l.strip() for l in open(os.path.join(ROOT, "checks", "READY")) if l.strip() and not l.startswith("#")]
 for f in sorted(glob.glob(os.path.join(ROOT, "checks", "C*.manifest.json"))):
     c = json.load(open(f))
     pid = c["property_id"]
+    if pid not in ready:          # fragment exists but the check is not yet accepted by the lead
+        continue
     c.setdefault("quick_cmd", "./check %s --tier quick" % pid)
     c.setdefault("thorough_cmd", "./check %s --tier thorough" % pid)
     c.setdefault("evidence_file", "evidence/%s.json" % pid)
